@@ -19,7 +19,8 @@ RULE = ('four case kinds, each a generated layout + an operation history of dept
         'st = struct of 1..3 members, with combined read_/write_ (both, read only, write only) or with per-member '
         'read_/write_ subsets, user methods raising per script (HardwareError on read, RangeError on write) also in the middle of the '
         'generated struct read/write loops; fe = float/enum pair over 1..5 labels (implicit/explicit indices, explicit/parsed values, '
-        'ties, descending tables, with/without read_idx/write_idx); li = base parameter with every non-empty subset of '
+        'ties, descending tables, with/without read_idx, write_idx absent / plain / following a script that takes the requested index '
+        'over, sets ANOTHER index instead (locked out range) or raises; the script changes inside the history); li = base parameter with every non-empty subset of '
         '{_min,_max,_limits} plus a LimitsType parameter; co = 1..3 controllers registered in random name order on one output, each '
         'plain / writing the output target on switch-off (picontrol style) / raising on switch-off per script. '
         'After every operation the result, the update events (value and error updates) in order and the cached values and error flags '
@@ -34,6 +35,8 @@ ASSUMPTIONS = [
     'direction: HardwareError on read, RangeError on write); a parameter in error state (last update was an error update) is not '
     'compared by the oracle',
     'the label parser (regex + float()) of FloatEnumParam is python runtime: the parsed number enters the model as data',
+    'a scripted write_<idx> of the FloatEnum fake driver answers with an index of the table (never an invalid one) or raises '
+    'HardwareError before it stores anything; the oracle is told by the fake driver which index it was asked for and which it set',
 ]
 
 
@@ -259,16 +262,39 @@ def _run_fe(case):
     ns = {'g': FloatEnumParam('float with index', _fe_labels(L), '')}
     if L['ri']:
         ns['read_g_idx'] = lambda self: self.hwi
-    if L['wi']:
+    from frappy.errors import HardwareError
+    if L['wi'] in (1, 2):
         def write_g_idx(self, value, mode=L['wi']):
             self.hwi = int(value)
+            self.drv.append([int(value), self.hwi])
             return None if mode == 1 else self.hwi
+        ns['write_g_idx'] = write_g_idx
+    elif L['wi']:
+        # scripted hardware: a requested range may be locked out -> the driver sets another index and returns the index
+        # really set, or it raises
+        def write_g_idx(self, value):
+            k = int(value)
+            for req, act in self.scr:
+                if req == k:
+                    if act is None:
+                        self.drv.append([k, None])
+                        raise HardwareError('scripted: range refused')
+                    k2 = act
+                    break
+            else:
+                k2 = k
+            self.hwi = k2
+            self.drv.append([k, k2])
+            return k2
         ns['write_g_idx'] = write_g_idx
     cls = type('FeMod', (Module,), ns)
     env = _Env()
     m = env.add(cls, 'm')
     m.hwi = int(m.parameters['g_idx'].value)
+    m.scr = []
+    m.drv = []         # log of the fake driver: [requested index, index set or None when it raised]
     env.init(m)
+    m.drv = []
     pid = {'_g': 0, '_g_idx': 1}
 
     def snap():
@@ -303,10 +329,14 @@ def _run_fe(case):
         elif k == 'hwI':
             m.hwi = op[1]
             r = {'ok': []}
+        elif k == 'script':
+            m.scr = [list(e) for e in op[1]]
+            r = {'ok': []}
         else:
             raise ValueError(op)
-        steps.append({'res': r, 'events': events(), 'snap': snap(),
+        steps.append({'res': r, 'events': events(), 'snap': snap(), 'drv': m.drv,
                       'errs': [p for p in ('g', 'g_idx') if m.parameters[p].readerror]})
+        m.drv = []
     return {'init': init, 'steps': steps}
 
 
@@ -506,7 +536,9 @@ def enc_op(kind, op):
         return {'writeF': lambda: f'(Fe.WriteF {gal.z(op[1])})', 'writeI': lambda: f'(Fe.WriteI {gal.z(op[1])})',
                 'readF': lambda: f'(Fe.ReadF {by(op[1])})', 'readI': lambda: 'Fe.ReadI',
                 'setI': lambda: f'(Fe.SetI {gal.z(op[1])})', 'setF': lambda: f'(Fe.SetF {gal.z(op[1])})',
-                'hwI': lambda: f'(Fe.HwI {gal.z(op[1])})'}[k]()
+                'hwI': lambda: f'(Fe.HwI {gal.z(op[1])})',
+                'script': lambda: '(Fe.Script %s)' % gal.lst(
+                    op[1], lambda e: f'({gal.z(e[0])}, {gal.option(e[1], gal.z)})')}[k]()
     if kind == 'li':
         return {'writeA': lambda: f'(Li.WriteA {gal.z(op[1])})', 'writeMin': lambda: f'(Li.WriteMin {gal.z(op[1])})',
                 'writeMax': lambda: f'(Li.WriteMax {gal.z(op[1])})',
@@ -646,14 +678,26 @@ def oracle(case, obs):
                 v = ops[k][1]
                 r = steps[k]['res']
                 lo, hi = min(table.values()), max(table.values())
+                best = min(abs(x - v) for x in table.values())
+                # what the fake driver (if the module has a write_<idx>) was asked for and what it did: [requested, set | None]
+                drv = steps[k].get('drv') or []
                 if 'ok' in r:
-                    best = min(abs(x - v) for x in table.values())
-                    if want is None or abs(want - v) != best:
-                        fail('floatenum-closest', f'{label}: write of {v / 2} selected index {idx} '
-                             f'({None if want is None else want / 2}), closest distance is {best / 2}', k)
+                    # the index selected by the write: the one handed to write_<idx>, or (no driver method) the one set
+                    sel = drv[0][0] if drv else idx
+                    if len(drv) > 1:
+                        fail('floatenum-closest', f'{label}: write_<idx> was called {len(drv)} times', k)
+                    if sel not in table or abs(table[sel] - v) != best:
+                        fail('floatenum-closest', f'{label}: write of {v / 2} selected index {sel} '
+                             f'({table[sel] / 2 if sel in table else None}), closest distance is {best / 2}', k)
+                    if drv and drv[0][1] != idx:
+                        fail('floatenum-closest', f'{label}: write_<idx> set index {drv[0][1]} but the index parameter is {idx}', k)
                     if r['ok'] != [want]:
-                        fail('floatenum-closest', f'{label}: write returned {r["ok"]} instead of the selected value', k)
-                elif lo <= v <= hi:
+                        fail('floatenum-value', f'{label}: write of {v / 2} returned '
+                             f'{[x / 2 for x in r["ok"]]} but the index now set is {idx} which means '
+                             f'{None if want is None else want / 2}', k, view='reply')
+                elif lo <= v <= hi and not (r['err'] == 'HardwareError' and len(drv) == 1 and drv[0][1] is None
+                                            and drv[0][0] in table and abs(table[drv[0][0]] - v) == best):
+                    # the only legitimate refusal of an allowed value: the scripted write_<idx> raised for the closest index
                     fail('floatenum-closest', f'{label}: write of allowed value {v / 2} refused with {r["err"]}', k)
                 elif before[1] != snap[1] or before[0] != snap[0]:
                     fail('floatenum-closest', f'{label}: refused write changed the parameters', k)
@@ -914,7 +958,7 @@ def gen_fe_layout(rng):
         labels.append({'idx': idx, 'label': text, 'val': h if explicit else None, 'pval': None if explicit else h})
         nxt = (nxt if idx is None else idx) + 1
     ri = rng.random() < 0.5
-    wi = rng.choice([0, 1, 2])
+    wi = rng.choice([0, 1, 2, 3, 3, 3])
     return {'labels': labels, 'ri': ri, 'wi': wi}
 
 
@@ -922,7 +966,19 @@ def gen_fe_op(rng, L, allow_unsafe=True):
     table = fe_table(L)
     keys = list(table)
     vals = list(table.values())
-    k = rng.choice(['writeF', 'writeF', 'writeI', 'readF', 'readI', 'setI', 'setF', 'hwI'])
+    k = rng.choice(['writeF', 'writeF', 'writeI', 'readF', 'readI', 'setI', 'setF', 'hwI']
+                   + (['script', 'script', 'writeF'] if L['wi'] >= 3 else []))
+    if k == 'script':
+        # the script of the fake driver: some indices are locked out (another index is set instead) or refused (it raises)
+        scr = []
+        r = rng.random()
+        if r < 0.15:
+            return ['script', []]
+        for key in keys:
+            if rng.random() < (0.5 if r < 0.8 else 0.9):
+                scr.append([key, None if rng.random() < 0.3 else rng.choice(keys)])
+        rng.shuffle(scr)
+        return ['script', scr]
     if k == 'writeF':
         lo, hi = min(vals), max(vals)
         v = rng.choice([rng.randint(lo - 2, hi + 2), rng.choice(vals), rng.choice(vals) + rng.choice([-1, 1]),
@@ -1062,11 +1118,20 @@ def exhaustive_cases(depth):
     for d in range(1, depth + 1):
         for ops in itertools.product(alpha, repeat=d):
             yield {'kind': 'fe', 'layout': L, 'ops': [list(o) for o in ops]}
+    # float/enum with a scripted write_<idx>: ranges locked out (another index is set) or refused (raises)
+    L = {'labels': [{'idx': None, 'label': '0.5', 'val': None, 'pval': 1}, {'idx': None, 'label': '5', 'val': None, 'pval': 10},
+                    {'idx': None, 'label': '50', 'val': None, 'pval': 100}, {'idx': 7, 'label': 'L3', 'val': 40, 'pval': None}],
+         'ri': True, 'wi': 3}
+    alpha = [['writeF', 90, 'c'], ['writeF', 12, 'd'], ['writeF', 30, 'c'], ['writeI', 2, 'c'], ['setI', 7], ['readI', 'c'],
+             ['script', [[2, 1], [7, 0]]], ['script', [[2, None], [1, 1]]], ['script', []]]
+    for d in range(1, depth + 1):
+        for ops in itertools.product(alpha, repeat=d):
+            yield {'kind': 'fe', 'layout': L, 'ops': [list(o) for o in ops]}
 
 
 def gen_cases(seed, tier):
     rng = random.Random(seed * 1000003 + 18)
-    per_kind = {'quick': 1200, 'thorough': 10000, 'search': 10000}[tier]
+    per_kind = {'quick': 1000, 'thorough': 10000, 'search': 10000}[tier]
     cases = []
     for kind in ('st', 'fe', 'li', 'co'):
         cases.extend(rand_case(rng, kind) for _ in range(per_kind))
